@@ -1,6 +1,8 @@
 #!/usr/bin/env python3
 """Runs seeded changes against checks: seed_matrix.py [ID-Mk ...]; results in /verif/seeded/<ID-Mk>/meta.json (detected_by)."""
 import json, os, subprocess, sys, re, time
+REPO = os.environ.get("SEED_REPO", "/repo")   # a scratch worktree of /repo HEAD may be used while /repo is busy
+WORKERS = os.environ.get("SEED_WORKERS", "")
 PLAN = {
  "C01-M1":["C01"], "C01-M2":["C10","C01"], "C02-M1":["C02"], "C02-M2":["C12","C02"], "C03-M1":["C03"], "C03-M2":["C03"],
  "C04-M1":["C04"], "C04-M2":["C04"], "C05-M1":["C05"], "C05-M2":["C05"], "C06-M1":["C06"], "C06-M2":["C10","C06"],
@@ -24,9 +26,9 @@ targets = sys.argv[1:] or sorted(PLAN)
 for t in targets:
     d = f"/verif/seeded/{t}"
     meta = json.load(open(f"{d}/meta.json"))
-    if sh("git -C /repo status --porcelain").stdout.strip():
+    if sh(f"git -C {REPO} status --porcelain").stdout.strip():
         print("repo dirty, abort"); sys.exit(1)
-    r = sh(f"git -C /repo apply {d}/patch.diff")
+    r = sh(f"git -C {REPO} apply {d}/patch.diff")
     if r.returncode != 0:
         print(t, "patch does not apply:", r.stderr[:200]); meta["detection_notes"] = "patch no longer applies to /repo HEAD"; json.dump(meta, open(f"{d}/meta.json","w"), indent=1); continue
     det = []
@@ -35,13 +37,13 @@ for t in targets:
             if p not in claimed:
                 det.append({"check": p, "result": "no check registered for this property"}); continue
             t0 = time.time()
-            r = sh(f"cd /verif && ./bin/check {p} --tier quick --no-native --evidence /tmp/ev_seed_{p}.json")
+            r = sh(f"cd /verif && ./bin/check {p} --tier quick --no-native --evidence /tmp/ev_seed_{t}_{p}.json --out /tmp/seed_out --repo {REPO}" + (f" --workers {WORKERS}" if WORKERS else ""))
             viol = sorted(set(re.findall(r"harness=(\S+) assert=(\S+)", "\n".join(l for l in r.stdout.split("\n") if l.startswith("  harness=")))))
             inc = len([l for l in r.stdout.split("\n") if l.startswith("INCONCLUSIVE")])
             det.append({"check": p, "exit": r.returncode, "detected": r.returncode == 1, "violations": [f"{h} {a}" for h, a in viol][:8], "inconclusive_lines": inc, "wall_s": round(time.time()-t0)})
             print(t, p, "exit", r.returncode, viol[:3], flush=True)
     finally:
-        sh("git -C /repo checkout -- . && git -C /repo clean -fdq")
+        sh(f"git -C {REPO} checkout -- . && git -C {REPO} clean -fdq")
     meta["detected_by"] = det
-    meta["ran"] = "tools/seed_matrix.py: git -C /repo apply patch.diff; ./bin/check <prop> --tier quick; git -C /repo checkout -- ."
+    meta["ran"] = f"tools/seed_matrix.py: git -C {REPO} apply patch.diff; ./bin/check <prop> --tier quick --repo {REPO}; git -C {REPO} checkout -- ."
     json.dump(meta, open(f"{d}/meta.json","w"), indent=1)
